@@ -139,6 +139,14 @@ CLAIMED = {
     note="Species at rest (interaction energy = beam energy); non-collinear flows not enumerated; constant mock coefficients.",
     technique="TLA+ exact rational mean / charged sum enumerated by TLC, one emission call per configuration + argument trace check",
     design="4.5"),
+ "C02": dict(
+    text="LineShape.tla gives, for each of the seven line-shape models, the components a line is split into with their exact share of the radiance (fractions in cos^2 of the field angle from integer "
+         "vectors, multiplet / Zeeman-structure / MSE ratios) and their position label, over polarisation x 4 angle classes x field on/off x temperature sign x broadening x 5 window classes; TLC checks "
+         "shares sum to one, the pi and sigma shares, pi + sigma = 1 and that a line without width has no components (2 280 configurations). Each is executed on the real object: Gaussian-kernel models "
+         "bin by bin against sum R w BinAvg_erf(position, sigma) with CODATA Doppler/Zeeman/Stark positions (1e-9), the Stark pseudo-Voigt by its integral, pi + sigma vs unpolarised bin by bin, no-width adds nothing.",
+    note="One plasma point and fixed tables; Stark fit coefficients are inputs; Lorentzian kernel shape only through the integral (2e-3).",
+    technique="TLA+ exact component-share table enumerated by TLC, one add_line evaluation per configuration against erf bin averages",
+    design="4.2"),
 }
 
 NOT_YET = {}
